@@ -240,6 +240,7 @@ package kv
 //@ func (S3BucketInfo).toPersistEncrypt
 //@   modifies nothing
 //@   ensures result != nil && fresh(result) && result.Persist != nil && fresh(result.Persist) && result.Persist.Prefix == spc.Prefix + suffix && result.Persist.BucketName == spc.BucketName && result.encryptor != nil
+//@   ensures the-configured-encryptor-is-the-one-used: imp(encryptor != nil, result.encryptor == encryptor)
 
 //@ func Open
 //@   requires S3 != nil && cfg.Storage != nil
@@ -610,6 +611,12 @@ package kv
 
 // key derivation (C18): the node key is a function of the WHOLE passphrase (and context): two passphrases that
 // differ anywhere derive from different inputs
+// the documented constructor ALWAYS yields a real encryptor, for every passphrase
+// (nil and empty included): a nil encryptor would silently mean "store plaintext"
+//@ func V1NodeEncryptor
+//@   modifies nothing
+//@   ensures always-an-encryptor: result != nil && typeis(result, *jencryptor) && result.(*jencryptor) != nil && fresh(result.(*jencryptor))
+//@   ensures key-from-the-whole-passphrase: bytes(&result.(*jencryptor).key) == argonKey(b64("" + bytes(passphrase)), blake("" + bytes(passphrase), 16), 32)
 //@ func deriveKey
 //@   modifies nothing
 //@   ensures whole-input: bytes(result) == argonKey(b64(bytes(context) + bytes(master)), blake(bytes(context) + bytes(master), 16), 32) && len(result) == 32
